@@ -45,6 +45,15 @@ func (v val) str(mask bool) string {
 var t0 = time.Unix(1_700_000_000, 0).UTC()
 var wt = t0.Add(-time.Hour) // the explicit write time
 
+// wtOf: the write time a write with WriteTime set is given: an hour before the clock's epoch, or - for the writes
+// of value 2 - the zero time.Time, which is a time like any other ("use t as the change time")
+func wtOf(w wop) time.Time {
+	if w.V.a == 2 {
+		return time.Time{}
+	}
+	return wt
+}
+
 // clk steps by one second per write (set by the harness) and ticks one nanosecond per reading: a write that
 // reads the clock more than once gets different times, which shows when the event and the stored item disagree
 type clk struct{ t time.Time }
@@ -184,8 +193,8 @@ func run(c cfg, hist []wop) (key, msg string) {
 			var wo []resource.WriteOption
 			ct := now
 			if w.WriteTime {
-				wo = append(wo, resource.WithWriteTime(wt))
-				ct = wt
+				wo = append(wo, resource.WithWriteTime(wtOf(w)))
+				ct = wtOf(w)
 			}
 			var err error
 			old, existed := ref[w.ID]
@@ -377,8 +386,8 @@ func runID(c cfg, hist []wop) (key, msg string) {
 			ct := now
 			var wo []resource.WriteOption
 			if w.WriteTime {
-				wo = append(wo, resource.WithWriteTime(wt))
-				ct = wt
+				wo = append(wo, resource.WithWriteTime(wtOf(w)))
+				ct = wtOf(w)
 			}
 			_, existed := ref[w.ID]
 			var err error
